@@ -47,6 +47,8 @@ def go_handle_c02(rep, c, r, v, replay):
     rep.count("go-level-checked")
     if v[0] == 0:
         rep.violation("the generated method scans a different number of destinations / field names than the query returns columns", replay)
+    elif len(v) > 3 and v[3] == 0:
+        rep.violation("correspondence corr:C02:struct_tags broken: the db tags of the returned struct differ from the columnsToStruct model (Model/GoStruct.v)", replay, no_input=True)
 
 
 def run(tier, seed):
